@@ -134,3 +134,32 @@ func init() {
 	register(c14)
 	register(histCheck("C10", "", 0, 1, "C10: one step of the history may be killed before or after any command or at any stage of a write of the cache file (before, truncated, proper prefix, complete); no later step may skip a task whose inputs differ from its last successful completion (an explicit error about the cache is acceptable)."))
 }
+
+func orderJob(n, reqlen, undefined, dup, fail int) jobSpec {
+	p := map[string]string{"n": strconv.Itoa(n), "reqlen": strconv.Itoa(reqlen), "undefined": strconv.Itoa(undefined), "dup": strconv.Itoa(dup), "fail": strconv.Itoa(fail)}
+	return jobSpec{Name: fmt.Sprintf("Order[n=%d reqlen=%d undefined=%d dup=%d fail=%d]", n, reqlen, undefined, dup, fail), Func: "Order", Params: p,
+		Opts: interp.Options{Budget: 20_000_000, MapOrder: true, MapOrderPkgs: []string{"github.com/FollowTheProcess/collections"}}}
+}
+
+func init() {
+	register(&checkDef{
+		ID: "C03", Pkg: "runh", Level: "other", NativeCheck: true, UseStubs: true, OnlyPrefix: "C03/",
+		Explanation: "Bounded symbolic execution of the real file.New (duplicate detection) and SpokFile.Run (buildGraph, dag.New/AddVertex/AddEdge/Sort with its set and queue, run) on task graphs whose edge set, including self-loops, is symbolic (every subset of the n*n directed edges is a path), with a symbolic request list, an optional dependency on / request of an undefined name, an optional duplicate definition, an optional failing command, and every iteration order of the maps inside the dag package (a decision per range step). " +
+			"A reference closure/cycle computation in the harness says whether the selection is an error case; the real code must then return an error and run nothing, or run exactly the closure, each task once, dependencies first, with results in execution order.",
+		Bounds: func(tier string) string {
+			if tier == "thorough" {
+				return "n=3: all 512 edge sets x request lists of length 1..2 over {a,b,c,undefined} x undefined dependency x duplicate x failing task; n=4: all 65536 edge sets x single requests; all dag-internal map orders"
+			}
+			return "n=3: all 512 edge sets x single requests over {a,b,c,undefined} x undefined dependency x duplicate, and x request lists of length 2 without the error features; n=2 with a failing task; all dag-internal map orders"
+		},
+		Outside:      []string{"graphs of more than 4 tasks, request lists longer than 2", "map iteration orders outside the dag/set/queue packages (insertion order there)", "tasks have one command and no file dependencies (the cache plays no role)"},
+		Assumptions:  runAssumptions,
+		EndSignature: map[string]string{"crash": "C03/panic", "budget": "C03/non-termination", "deadlock": "C03/deadlock"},
+		Jobs: func(tier string, seed int64) []jobSpec {
+			if tier == "thorough" {
+				return []jobSpec{orderJob(3, 1, 1, 1, 1), orderJob(3, 2, 1, 0, 0), orderJob(4, 1, 0, 0, 0), orderJob(2, 2, 1, 1, 1)}
+			}
+			return []jobSpec{orderJob(3, 1, 1, 1, 0), orderJob(3, 2, 0, 0, 0), orderJob(2, 2, 1, 1, 1)}
+		},
+	})
+}
